@@ -456,9 +456,8 @@ class Interp:
         raise Unsupported(f"attribute store on {type(v).__name__}")
 
     def frame_write_obj(self, obj, name, ctx):
-        if not obj.born_in_call:
-            ctx.oblige(f"frame.attr-store[{obj.cls.name}.{name}]", False, "frame",
-                       {"what": f"attribute store {name} on an input object"})
+        ctx.oblige(f"frame.attr-store[{obj.cls.name}.{name}]", bool(obj.born_in_call), "frame",
+                   {"what": f"attribute store {name} on " + ("an object constructed in this call" if obj.born_in_call else "an input object")})
 
     # ------------------------------------------------------------------ statements
     def exec_block(self, stmts, env, ctx):
